@@ -597,7 +597,7 @@ func r021Expand(c *Ctx) {
 			}
 			// the clamp may sit in a helper of the package that is handed the depth
 			if ci, ok := ins.(*ssa.Call); ok {
-				if h := ci.Common().StaticCallee(); h != nil && h.Blocks != nil && h != fn && core.FuncPkg(h) == core.FuncPkg(fn) {
+				if h := ci.Common().StaticCallee(); h != nil && h.Blocks != nil && h != fn && core.FuncPkg(h) == core.FuncPkg(fn) && h.Signature.Results().Len() == 1 && types.Identical(h.Signature.Results().At(0).Type(), types.Typ[types.Int]) {
 					passesDepth := false
 					for _, a := range ci.Common().Args {
 						if core.ValueOrigin(a) == ssa.Value(depthParam(fn)) {
